@@ -8,6 +8,15 @@ CLAIMED = {
  "C20": ("enum", "exhaustive enumeration of every n up to the bound on the real functions + threshold probes through the real certificate checks",
          "Every cluster size 1..10^6 (10^7 thorough) is evaluated on the real NumFaulty/QuorumSize; for n<=13 the real certificate checks, collectors and RuntimeConfig are probed with q-1 and q distinct signers. Exhaustive within the bound; the all-n statement beyond the bound is commentary only.",
          "Trusts Go integer/float arithmetic; n beyond the bound is not covered.", "§4 C20"),
+ "C19": ("enum", "exhaustive enumeration of insertion/query sequences, byte strings and signer-list combinations against a map-based reference set",
+         "All Add/query sequences up to length 4 (6 thorough) over a byte-boundary id alphabet, every id 1..300, every byte string of length <=2 (and 3-byte extensions) through BitfieldFromBytes, and every ordered signer list up to n=5 through the real Sign/Combine of all three schemes (flat and nested) are compared with a map[ID]bool.",
+         "IDs above 300 and id 0 (outside the configured-replica domain) are not covered; Multi iteration order is not required by the property and not checked.", "§4 C19"),
+ "C17": ("enum", "exhaustive enumeration of tree configurations, oracle = relation assembled from every replica's own Parent()",
+         "n in 1..40 x branch factor 2..6 with identity, reversed, all rotations, all single transpositions and all permutations for n<=7 (8 thorough); every accessor of every replica's Tree is compared with the parent relation built from all replicas' Parent().",
+         "Random permutations for n>8 are replaced by the stated deterministic families; bf>6 and n>40 not covered.", "§4 C17"),
+ "C16": ("enum", "exhaustive enumeration of (n, view) for the stateless schemes and of (commit head, signer set, proposers, seed, query) for carousel/reputation on independent instances",
+         "Round-robin/fixed/tree-leader: n in 1..64, views 0..1024 (4096 thorough) plus 64 views around 2^32, 2^63 and 2^64-1, on every replica's own instance, incl. the bijection over any n consecutive views. Carousel: every head signer set >= quorum x last-f proposers x 3 seeds x 6 views around the activation point for n in {4,7}; reputation: all head sequences of length 2 (3 thorough), two instances compared.",
+         "Carousel/reputation signer sets are structurally valid quorums (validity of the signatures is C02's subject); windows crossing the uint64 wrap are excluded.", "§4 C16"),
 }
 PENDING = {}  # id -> reason (properties not claimed)
 
